@@ -100,3 +100,55 @@ package dsindex
 //@   ensures[empty_key] key == "" ==> err == ErrEmptyKey
 //@   ensures[one_value_per_entry] err == nil && key != "" ==> len(result0) == len(res("call:indexer.queryPrefix#0"))
 //@   ensures[values_decoded] err == nil && key != "" ==> forall(j, 0, len(result0), result0[j] == dec(pathBase(res("call:indexer.queryPrefix#0")[j].Key)))
+
+// ---- the Indexer interface as seen by its clients (dspinner, SyncIndex) ----------------------
+// ix(self, key, value): the index x holds the entry (key, value)
+//@ ghost ix(x Indexer, key string, value string) bool
+
+//@ func iface github.com/ipfs/boxo/pinning/pinner/dsindex.Indexer.HasAny
+//@   modifies faulted()
+//@   ensures (err != nil ==> faulted()) && (err == nil ==> faulted() == old(faulted()))
+//@ func iface github.com/ipfs/boxo/pinning/pinner/dsindex.Indexer.Search
+//@   modifies faulted()
+//@   ensures (err != nil ==> faulted()) && (err == nil ==> faulted() == old(faulted()))
+//@ func iface github.com/ipfs/boxo/pinning/pinner/dsindex.Indexer.Add
+//@   modifies ix(self, key, value), muts(), faulted()
+//@   ensures err == nil ==> ix(self, key, value) && muts() == old(muts()) + 1 && faulted() == old(faulted())
+//@   ensures err != nil ==> ix(self, key, value) == old(ix(self, key, value)) && muts() == old(muts()) && faulted()
+//@ func iface github.com/ipfs/boxo/pinning/pinner/dsindex.Indexer.Delete
+//@   modifies ix(self, key, value), muts(), faulted()
+//@   ensures err == nil ==> !ix(self, key, value) && muts() == old(muts()) + 1 && faulted() == old(faulted())
+//@   ensures err != nil ==> ix(self, key, value) == old(ix(self, key, value)) && muts() == old(muts()) && faulted()
+//@ func iface github.com/ipfs/boxo/pinning/pinner/dsindex.Indexer.DeleteKey
+//@   modifies ix(self, key), muts(), faulted()
+//@   ensures err == nil ==> all(v string, !ix(self, key, v)) && faulted() == old(faulted())
+//@   ensures err != nil ==> faulted()
+
+// ---- C24: SyncIndex reconciliation (closures over the maps refs: value -> key wanted, dels: value -> key to delete)
+// first pass: refs records, for every value of the reference index, its key
+//@ func SyncIndex$1
+//@   prop C24
+//@   arith int
+//@   requires refs != nil
+//@   modifies mapof(refs)
+//@   ensures[recorded] result && has(refs, value) && refs[value] == key
+// second pass over the target index: a pair that the reference has too is neither deleted nor re-added;
+// any other pair of the target is scheduled for deletion and leaves the additions untouched
+//@ func SyncIndex$2
+//@   prop C24
+//@   arith int
+//@   requires refs != nil && dels != nil && refs != dels
+//@   modifies mapof(refs), mapof(dels)
+//@   ensures[continues] result
+//@   ensures[same_pair_kept] old(has(refs, value)) && old(refs[value]) == key ==> !has(refs, value) && has(dels, value) == old(has(dels, value))
+//@   ensures[other_pair_deleted] !(old(has(refs, value)) && old(refs[value]) == key) ==> has(dels, value) && dels[value] == key
+//@   ensures[wanted_pair_still_added] !(old(has(refs, value)) && old(refs[value]) == key) ==> has(refs, value) == old(has(refs, value)) && (has(refs, value) ==> refs[value] == old(refs[value]))
+// third pass: exactly the scheduled pairs are deleted from, and the missing ones added to, the target
+//@ func SyncIndex
+//@   prop C24
+//@   arith int-assumed
+//@   modifies all
+//@   site[first_pass_over_the_reference] invoke:Indexer.ForEach#0 : arg0 == ref && arg2 == ""
+//@   site[second_pass_over_the_target] invoke:Indexer.ForEach#1 : arg0 == target && arg2 == ""
+//@   site[deletes_what_was_scheduled] invoke:Indexer.Delete : arg0 == target && has(dels, arg3) && dels[arg3] == arg2
+//@   site[adds_what_is_missing] invoke:Indexer.Add : arg0 == target && has(refs, arg3) && refs[arg3] == arg2
